@@ -974,7 +974,7 @@ func TestC12(t *testing.T) {
 	r.Rule("a case = one input to ParsePointsWithPrecision, a pure function of (seed, case#): 12% structured valid batches (clean C11 model points, whitespace/comment/blank-line variations), 18% valid batches with 1–3 injected defect lines of 24 known kinds (1 in 12 of them: a single line of one of 3 further kinds), 1% key-length boundary lines (65 535), 14% mutations of generated batches, 40% mutations of the " + fmt.Sprint(len(corpus)) + " string literals of models/points_test.go (1–4 stacked byte/structure mutations: hostile bytes, delete/duplicate/truncate/splice, extreme numbers, 95–210 tags, backslash before delimiter, 65 KB keys), 15% byte soup; precisions ns/us/ms/s and unknown ones; executed in child processes with the input journalled before parsing; non-trivial = the parser returned a point or an error; distinct = hash of (precision, input)")
 	n := r.N(150000, 2000000)
 	batch := 5000
-	workers := 4
+	workers := 6
 	if replay := os.Getenv("VERIF_REPLAY"); replay != "" {
 		c12Replay(t, r, replay)
 		return
